@@ -339,7 +339,9 @@ def configs(tier):
             out.append(dict(base, gen='sets_k_fold_pattern', k_pattern=2, random=True))
             out.append(dict(base, gen='sets_of_k_pattern', size=1, random=False))
             out.append(dict(base, gen='sets_k_fold', k_rdm=2, k_pattern=2, random=False))
-            out.append(dict(base, gen='sets_leave_one_out_rdm'))
+            if pd == 'index':
+                # (the RDM generators address the conditions by position: only meaningful with 'index')
+                out.append(dict(base, gen='sets_leave_one_out_rdm'))
     # float group labels that np.isclose (default tolerances) cannot tell apart: time stamps, tiny values
     for lab in ('time', 'tiny'):
         for n_rdm, rg in ((3, [0, 1, 2]), (4, [0, 1, 1, 2]), (4, [0, 1, 2, 0])):
@@ -417,7 +419,8 @@ def shards(tier, seed):
         out.append({'kind': 'structure', 'cfgs': light[i:i + 12]})
     leak = [c for c in cfgs if c['gen'] in ('sets_k_fold', 'sets_k_fold_pattern', 'sets_k_fold_rdm',
                                             'sets_leave_one_out_pattern', 'sets_leave_one_out_rdm', 'sets_random')
-            and c['n_cond'] <= 5 and c['n_rdm'] <= 3 and c.get('cids') is None and not c.get('rdm_draw')]
+            and c['n_cond'] <= 5 and c['n_rdm'] <= 3 and c.get('cids') is None and not c.get('rdm_draw')
+            and not c.get('history')]
     step = 1 if tier == 'thorough' else 6
     leak = leak[::step]
     for i in range(0, len(leak), 4):
